@@ -67,12 +67,6 @@ class Check:
     # ---- finishing
     def finish(self):
         known = load_known().get(self.pid, {})
-        # floors: a rule that matched fewer instances than were confirmed by hand is a
-        # checker failure (vacuous pass), reported as cannot-decide
-        for rule, (n, why) in self.floors.items():
-            c = self.count(rule)
-            if c < n:
-                raise CannotDecide("rule %s matched %d instances, floor is %d (%s)" % (rule, c, n, why))
         viol = [i for i in self.instances if not i[2]]
         new = []
         seen_keys = set()
@@ -98,7 +92,15 @@ class Check:
         self.write_evidence(len(new))
         for l in lines:
             print(l)
-        return 1 if new else 0
+        if new:
+            return 1
+        # floors: a rule that matched fewer instances than were confirmed by hand passes
+        # vacuously; that is a checker failure (cannot decide), never a silent pass
+        for rule, (n, why) in self.floors.items():
+            cnt = self.count(rule)
+            if cnt < n:
+                raise CannotDecide("rule %s matched %d instances, floor is %d (%s)" % (rule, cnt, n, why))
+        return 0
 
     def write_evidence(self, nviol):
         rules = sorted({i[0] for i in self.instances})
